@@ -140,3 +140,15 @@ package testutil
 //@     invariant [store] et == old(et) && et.store == old(et.store) && et.store.utxos == old(et.store.utxos)
 //@     invariant [unspent-stored] forall k int :: { unspent[k] } 0 <= k && k <= rangeindex ==> (unspent[k].ID in et.store.utxos)
 //@   ensures [unspent-stored] result == nil ==> (forall k int :: { unspent[k] } 0 <= k && k < len(unspent) ==> (unspent[k].ID in et.store.utxos))
+//
+// C09: the reference contractor keeps its own copy of every contract's roots: the list stored by
+// ReviseV2Contract is a fresh array (not the caller's, not one that was stored before), holds the
+// roots it was given, and no other contract's stored list is touched; a refused revision changes
+// nothing.
+//@ func (*EphemeralContractor).ReviseV2Contract props C09
+//@   requires ec != nil && ec.contracts != nil && ec.roots != nil
+//@   ensures [error-no-effect] result != nil ==> snapshot(ec.roots) == old(snapshot(ec.roots)) && snapshot(ec.contracts) == old(snapshot(ec.contracts))
+//@   ensures [stored] result == nil ==> len(ec.roots[contractID]) == len(roots) && (forall k int :: { ec.roots[contractID][k] } 0 <= k && k < len(roots) ==> ec.roots[contractID][k] == roots[k])
+//@   ensures [own-array] result == nil && len(roots) > 0 ==> fresh(ec.roots[contractID]) && !sameArray(ec.roots[contractID], roots)
+//@   ensures [others-untouched] forall b types.FileContractID, k int :: { old(ec.roots[b][k]) } b != contractID && 0 <= k && k < old(len(ec.roots[b])) ==> len(ec.roots[b]) == old(len(ec.roots[b])) && ec.roots[b][k] == old(ec.roots[b][k])
+//@   ensures [recorded] result == nil ==> ec.contracts[contractID] == revision
